@@ -94,6 +94,10 @@ fn normalise(v: Verdict) -> Verdict {
 }
 
 fn finish(original: Unimock, obs: Vec<Obs>) -> Observed {
+    finish_how(original, obs, VerifyHow::Drop)
+}
+
+fn finish_how(original: Unimock, obs: Vec<Obs>, how: VerifyHow) -> Observed {
     let snap = unimock::verif::snapshot(&original);
     let mut counts: Vec<(String, Vec<usize>)> = snap
         .methods
@@ -106,12 +110,19 @@ fn finish(original: Unimock, obs: Vec<Obs>) -> Observed {
         counts,
         ordered_index: snap.ordered_index,
         errors: snap.panic_reasons.len(),
-        verdict: normalise(verify_by(original, VerifyHow::Drop)),
+        verdict: normalise(verify_by(original, how)),
     }
 }
 
 fn run_plain(clauses: &[ClauseSpec], history: &[Call]) -> Observed {
+    run_how(clauses, history, VerifyHow::Drop)
+}
+
+/// `VerifyHow::Verify`: the original is told not to verify in drop right after construction (the
+/// clones made afterwards inherit that) and is judged by an explicit verify() at the end.
+fn run_how(clauses: &[ClauseSpec], history: &[Call], how: VerifyHow) -> Observed {
     let original = Unimock::new(build_clause(clauses));
+    let original = if how == VerifyHow::Verify { original.no_verify_in_drop() } else { original };
     let n_clones = history.iter().map(|c| c.via & 0x7f).max().unwrap_or(0) as usize;
     let clones: Vec<Unimock> = (0..n_clones).map(|_| original.clone()).collect();
     let mut obs = vec![];
@@ -125,7 +136,7 @@ fn run_plain(clauses: &[ClauseSpec], history: &[Call]) -> Observed {
         }
     }
     drop(clones);
-    finish(original, obs)
+    finish_how(original, obs, how)
 }
 
 /// All permutations of 0..n that keep the relative order of same-method clauses and of ordered
@@ -377,6 +388,24 @@ fn main() {
             st.add("transitions", h.len() as u64);
             st.add("traces_validated_against_impl", 1);
             st.add("b_routings", 1);
+            // the same pair of runs with verification in drop switched off and an explicit verify()
+            if h.len() <= 3 {
+                let base_v = run_how(clauses, h, VerifyHow::Verify);
+                let var_v = run_how(clauses, &routed, VerifyHow::Verify);
+                st.add("traces_validated_against_impl", 1);
+                st.add("b_routings_explicit_verify", 1);
+                if base_v != var_v || base_v != base {
+                    ctx.violation(
+                        "b:routing-explicit-verify",
+                        &format!(
+                            "routing {} as {} with no_verify_in_drop() and an explicit verify(): baseline {base_v:?}, routed {var_v:?}, baseline verified in drop {base:?}",
+                            history_to_json(h).to_string(),
+                            history_to_json(&routed).to_string()
+                        ),
+                        J::obj().set("relation", "b-explicit-verify"),
+                    );
+                }
+            }
             if base != var {
                 ctx.violation(
                     "b:routing",
